@@ -145,12 +145,20 @@ def answer (l : Line) : String :=
         if fn = "Encrypt" then
           match encryptRoute alg with
           | some "EncryptPublicKey" => asymOutcome "EncryptPublicKey" alg kind
-          | some _ => .err "routed:symmetric"
+          | some _ =>
+            match encryptSymmetric realPrims (List.replicate 16 0) alg { kind := kind, raw := List.replicate 32 0 } [] [] with
+            | .ok _ => .ok ()
+            | .err e => .err e
+            | .panic w => .panic w
           | none => .err eUnsupportedAlgorithm
         else if fn = "Decrypt" then
           match decryptRoute alg with
           | some "DecryptPrivateKey" => asymOutcome "DecryptPrivateKey" alg kind
-          | some _ => .err "routed:symmetric"
+          | some _ =>
+            match decryptSymmetric realPrims (List.replicate 16 0) alg { kind := kind, raw := List.replicate 32 0 } [] [] [] with
+            | .ok _ => .ok ()
+            | .err e => .err e
+            | .panic w => .panic w
           | none => .err eUnsupportedAlgorithm
         else asymOutcome fn alg kind
       render r (fun _ => "")
